@@ -774,6 +774,11 @@ func (m *MapPollard) undoDeletion(proof Proof, hashes []Hash) error {
 		proofPos = translatePositions(proofPos, TreeRows(m.NumLeaves), m.TotalRows)
 	}
 
+	// Hashes past the needed ones are not used, same as when the proof was verified.
+	if len(proof.Proof) > len(proofPos) {
+		proof.Proof = proof.Proof[:len(proofPos)]
+	}
+
 	if len(proofPos) != len(proof.Proof) {
 		if !m.Full {
 			return fmt.Errorf("Can't undo as the passed in proof is not valid and " +
